@@ -69,6 +69,7 @@ Section GenIdem.
       | apply idem_formula_expect; solve_idem
       | exact (idem_number_range orc TNumber)
       | exact (idem_number_range orc TInt)
+      | exact (idem_number_range orc TReal)
       | apply idem_oracle_first; [exact Ho | vm_compute; reflexivity]
       | apply idem_then_filters; [solve_idem | vm_compute; reflexivity]
       | apply idem_shape_any; [vm_compute; reflexivity | intro; reflexivity]
@@ -115,29 +116,25 @@ Section GenIdem.
 End GenIdem.
 
 (* ------------------------------------------------------------------------------------------------ *)
-(* guarded classes                                                                                   *)
+(* every class schema is guarded: a refused configuration is a validation error                      *)
 (* ------------------------------------------------------------------------------------------------ *)
-(* classes in which a Range or Length can be reached by a value it cannot handle *)
-Definition unguarded_classes : list str :=
-  [zs "RandomFunction"; zs "LinearComparer"; zs "StringGrader"; zs "FormulaGrader"; zs "NumericalGrader";
-   zs "MatrixGrader"; zs "SingleListGrader"; zs "IntervalGrader"; zs "IntegralGrader"; zs "SumGrader"].
-
-Theorem guarded_classes : forall dc,
-  forallb (fun row => guarded (snd row dc) || existsb (str_eqb (fst (fst row))) unguarded_classes) Schemas.gen_classes = true.
+Theorem guarded_classes : forall dc, forallb (fun row => guarded (snd row dc)) Schemas.gen_classes = true.
 Proof. intro dc. vm_compute. reflexivity. Qed.
 
-Theorem guarded_class_refusal_is_validation_error : forall orc name tags sch dc cfg e,
+(* for EVERY class of the library, EVERY value handed in as configuration and every default comparer: when
+   validate_config refuses, it raises voluptuous.Error -- never a TypeError or any other exception *)
+Theorem class_refusal_is_validation_error : forall orc name tags sch dc cfg e,
   (forall id v e, orc id v = Raise e -> e = EInvalid) ->
-  In (name, tags, sch) Schemas.gen_classes -> existsb (str_eqb name) unguarded_classes = false ->
+  In (name, tags, sch) Schemas.gen_classes ->
   validate_config orc (sch dc) cfg = Raise e -> e = EVError.
 Proof.
-  intros orc name tags sch dc cfg e Horc Hin Hun H.
+  intros orc name tags sch dc cfg e Horc Hin H.
   pose proof (guarded_classes dc) as HG. rewrite forallb_forall in HG. specialize (HG _ Hin). cbn [fst snd] in HG.
-  rewrite Hun, orb_false_r in HG. eapply guarded_refusal_is_validation_error; eassumption.
+  eapply guarded_refusal_is_validation_error; eassumption.
 Qed.
 
 (* ------------------------------------------------------------------------------------------------ *)
-(* the refuting witnesses                                                                            *)
+(* regression: the witnesses of the repaired defects (9e7ee91, 49c25d3) are now validation errors    *)
 (* ------------------------------------------------------------------------------------------------ *)
 Definition escapes (sch : pyval -> schema) (cfg : pyval) : bool :=
   match validate_config doc_orc (sch PNone) cfg with
@@ -145,21 +142,16 @@ Definition escapes (sch : pyval -> schema) (cfg : pyval) : bool :=
   | Ret _ => false
   end.
 
-(* LinearComparer(equals='a'): Range(0, 1) is applied without a type test *)
-Lemma linear_comparer_escapes :
-  escapes Schemas.gen_schema_LinearComparer (PDict [(PStr (zs "equals"), PStr (zs "a"))]) = true.
-Proof. vm_compute. reflexivity. Qed.
-
-(* NumericalGrader(variables=5): Length(max=0) is applied before the list test *)
-Lemma numerical_grader_escapes :
-  escapes Schemas.gen_schema_NumericalGrader (PDict [(PStr (zs "variables"), PInt 5)]) = true.
-Proof. vm_compute. reflexivity. Qed.
-
-(* FormulaGrader(tolerance=1j): complex is a Number, Range cannot order it *)
 Definition a_complex_number : pyval := PObj [tag_Number] (PInt 1).
-Lemma formula_grader_escapes_complex :
-  escapes Schemas.gen_schema_FormulaGrader (PDict [(PStr (zs "tolerance"), a_complex_number)]) = true.
-Proof. vm_compute. reflexivity. Qed.
+
+(* LinearComparer(equals='a'), NumericalGrader(variables=5), FormulaGrader(tolerance=1j), RealInterval(start=1j) *)
+Lemma repaired_witnesses_are_validation_errors :
+  validate_config doc_orc (Schemas.gen_schema_LinearComparer PNone) (PDict [(PStr (zs "equals"), PStr (zs "a"))]) = Raise EVError
+  /\ validate_config doc_orc (Schemas.gen_schema_NumericalGrader PNone) (PDict [(PStr (zs "variables"), PInt 5)]) = Raise EVError
+  /\ validate_config doc_orc (Schemas.gen_schema_FormulaGrader PNone) (PDict [(PStr (zs "tolerance"), a_complex_number)]) = Raise EVError
+  /\ validate_config doc_orc (Schemas.gen_schema_RealInterval PNone) (PDict [(PStr (zs "start"), a_complex_number)]) = Raise EVError
+  /\ validate_config doc_orc (Schemas.gen_schema_RealInterval PNone) (PList [a_complex_number; PInt 2]) = Raise EVError.
+Proof. vm_compute. repeat split. Qed.
 
 (* ------------------------------------------------------------------------------------------------ *)
 (* domains of the regenerated combinators                                                            *)
